@@ -75,7 +75,7 @@ def find_function(text, qualname, path="", params_re=None, which=None):
     """Definition `<ret> <qualname>(<params>) [const] {body}`; exactly one match required (or `which`-th
     among overloads filtered by params_re)."""
     cands = []
-    for m in re.finditer(r"(?m)^([ \t]*)((?:[\w:<>\*&~]+[ \t\*&]+)+?)(%s)[ \t]*\(" % re.escape(qualname), text):
+    for m in re.finditer(r"(?m)^([ \t]*)([\w:<>\*&~ \t]*?[ \t\*&])(%s)[ \t]*\(" % re.escape(qualname), text):
         lp = m.end() - 1
         try:
             rp = match_close(text, lp)
@@ -105,7 +105,7 @@ def find_function(text, qualname, path="", params_re=None, which=None):
 def find_inline_method(text, cls_body_owner, name, path="", params_re=None):
     """Inline member function defined inside a class body: `<ret> name(<params>) [const] {body}`."""
     cands = []
-    for m in re.finditer(r"(?m)^([ \t]*)((?:[\w:<>\*&]+[ \t\*&]+)+?)(%s)[ \t]*\(" % re.escape(name), text):
+    for m in re.finditer(r"(?m)^([ \t]*)([\w:<>\*& \t]*?[ \t\*&])(%s)[ \t]*\(" % re.escape(name), text):
         lp = m.end() - 1
         rp = match_close(text, lp)
         mm = re.match(r"\s*(const)?\s*\{", text[rp + 1:])
